@@ -421,6 +421,7 @@ def run(ctx):
              'version keys are computed differently by the writer %s and '
              'the reader %s' % (sorted(kw), sorted(kr)), ctx.loc(r))
     version_paths(ctx, r4)
+    merge_shape(ctx, r4)
     for f in (w, r):
         guards = [norm(n.test) for n in own_nodes(f.node)
                   if isinstance(n, ast.If) and 'hash_version_keys' in
@@ -767,3 +768,109 @@ def version_paths(ctx, rule):
                        ctx.construct(f, c),
                        'a version key is not the full path (prefix + key)',
                        ctx.loc(f, c))
+
+
+def merge_shape(ctx, rule):
+    """Structure of the version merge and of the version bookkeeping: which
+    branch handles which kind of value."""
+    prog = ctx.prog
+    mc = prog.func(CV + '._merge_ctx')
+    cfg = ctx.cfg(mc)
+    BOTH = ['isinstance(left_v, dict)', 'isinstance(v, dict)']
+    rec = [n for n, c in cfg.calls(lambda c: U.call_name(c) == '_merge_ctx')]
+    ver = [n for n, c in cfg.calls(lambda c: U.call_name(c) == '_get_version')]
+    rule.check(bool(rec) and all(
+        all(U.guarded(cfg, n, p_, True) for p_ in BOTH) and
+        U.guarded(cfg, n, 'k in ctx_left', True) for n in rec),
+        ctx.construct(mc, extra='recursion for nested dictionaries'),
+        'the merge does not recurse exactly when both sides hold a '
+        'dictionary under an existing key', ctx.loc(mc))
+    rule.check(len(ver) == 2 and all(
+        U.guarded(cfg, n, 'isinstance(left_v, dict) and isinstance(v, dict)',
+                  False) and U.guarded(cfg, n, 'k in ctx_left', True)
+        for n in ver), ctx.construct(mc, extra='versions decide leaves'),
+        'leaf values under an existing key are not decided by their '
+        'versions', ctx.loc(mc))
+    for x in cfg.nodes:
+        if x.kind == 'stmt' and isinstance(x.ast, ast.Return) and \
+                x.ast.value is not None:
+            v = dotted(x.ast.value)
+            if v == 'ctx_right':
+                rule.check(U.guarded(cfg, x, 'ctx_left is None', True),
+                           ctx.construct(mc, x.ast),
+                           'the right context is returned although a left '
+                           'one exists', ctx.loc(mc, x.ast))
+    mv = prog.func(CV + '._merge_versions')
+    vcfg = ctx.cfg(mv)
+    ins = [st for st in own_nodes(mv.node) if isinstance(st, ast.Assign) and
+           norm(st.targets[0]) == 'ver_left[key]' and
+           norm(st.value) == 'ver_right[key]']
+    rule.check(all(U.guarded(vcfg, vcfg.stmt_node(st), 'key in ver_left',
+                             False) for st in ins),
+               ctx.construct(mv, extra='missing versions copied'),
+               'a version is copied from the right although the left has '
+               'one', ctx.loc(mv))
+    pk = prog.func(CV + '._get_published_keys_recursively')
+    kcfg = ctx.cfg(pk)
+    apps = [n for n, c in kcfg.calls(
+        lambda c: U.call_name(c) == 'append' and
+        dotted(c.func.value) == pk.params[0])]
+    recs = [n for n, c in kcfg.calls(lambda c: U.call_name(c) == pk.name)]
+    rule.check(bool(apps) and bool(recs) and all(
+        U.guarded(kcfg, n, 'isinstance(published[key], dict)', False)
+        for n in apps) and all(
+        U.guarded(kcfg, n, 'isinstance(published[key], dict)', True)
+        for n in recs), ctx.construct(pk, extra='leaves get versions'),
+        'version keys are not recorded exactly for the non-dictionary '
+        'leaves of what was published', ctx.loc(pk))
+    # which merge: versioned iff enabled; deep merge iff strategy == merge
+    eu = prog.func('mistral.workflow.data_flow.evaluate_upstream_context')
+    ecfg = ctx.cfg(eu)
+    EN = 'cfg.CONF.context_versioning.enabled'
+    vm = [n for n, c in ecfg.calls(
+        lambda c: U.call_name(c) == 'merge_context_by_version')]
+    pm = [n for n, c in ecfg.calls(
+        lambda c: U.call_name(c) == 'merge_dicts')]
+    rule.check(bool(vm) and all(U.guarded(ecfg, n, EN, True) for n in vm) and
+               bool(pm) and all(U.guarded(ecfg, n, EN, False) for n in pm),
+               ctx.construct(eu, extra='versioned merge iff enabled'),
+               'the version merge is not used exactly when context '
+               'versioning is enabled', ctx.loc(eu))
+    for x in ecfg.nodes:
+        if x.kind == 'stmt' and isinstance(x.ast, ast.Return) and \
+                isinstance(x.ast.value, ast.Dict) and not x.ast.value.keys:
+            rule.check(U.guarded(ecfg, x, eu.params[0], False) or
+                       U.guarded(ecfg, x, 'len(%s) == 0' % eu.params[0],
+                                 True),
+                       ctx.construct(eu, extra='empty only without '
+                                     'upstream tasks'),
+                       'an empty context is returned although there are '
+                       'upstream tasks', ctx.loc(eu, x.ast))
+    eo = prog.func('mistral.workflow.data_flow.'
+                   'evaluate_task_outbound_context')
+    ocfg = ctx.cfg(eo)
+    ST = "CONF.engine.merge_strategy == 'merge'"
+    md = [n for n, c in ocfg.calls(
+        lambda c: U.call_name(c) == 'merge_dicts')]
+    ud = [n for n, c in ocfg.calls(
+        lambda c: U.call_name(c) == 'update_dict')]
+    rule.check(bool(md) and bool(ud) and
+               all(U.guarded(ocfg, n, ST, True) for n in md) and
+               all(U.guarded(ocfg, n, ST, False) for n in ud),
+               ctx.construct(eo, extra='deep merge iff strategy is merge'),
+               'published data is not deep-merged exactly under the "merge" '
+               'strategy (and replaced otherwise)', ctx.loc(eo))
+    # first dictionary that has the key wins
+    gi = prog.func('mistral.workflow.data_flow.ContextView.__getitem__')
+    gcfg = ctx.cfg(gi)
+    okg = False
+    for x in gcfg.nodes:
+        if x.kind == 'stmt' and isinstance(x.ast, ast.Return) and \
+                x.ast.value is not None:
+            for b in U.guard_match(gcfg, x, 'key in __d', True):
+                okg = norm(x.ast.value) == '%s[key]' % norm(b['__d'])
+    loops = [y for y in own_nodes(gi.node) if isinstance(y, ast.For) and
+             norm(y.iter) == 'self.dicts']
+    rule.check(okg and bool(loops), ctx.construct(gi),
+               'ContextView lookup does not return the value of the first '
+               'dictionary that has the key', ctx.loc(gi))
